@@ -43,7 +43,7 @@
 EXTENDS SqlRewrite, Json
 
 CONSTANTS MaxFiles,     \* layouts of 1..MaxFiles files (plus the full layout)
-          Depth2,       \* TRUE: also (a o b) o c and a o (b o c)
+          Depth2,       \* TRUE: also (a o b) o c
           Emit
 
 VARIABLES st
@@ -84,8 +84,7 @@ T0 == { Leaf(a) : a \in Atoms }
 T1 == { Not(t) : t \in T0 } \cup { Bin(z[1], z[2], z[3]) : z \in Conn \X T0 \X T0 }
 T2a == { Not(t) : t \in { u \in T1 : u.op # "not" } }
        \cup { Bin(z[1], Not(z[2]), z[3]) : z \in Conn \X T0 \X T0 }
-T2b == { Bin(z[1], z[2], z[3]) : z \in Conn \X { u \in T1 : u.op # "not" } \X T0 }
-       \cup { Bin(z[1], z[2], z[3]) : z \in Conn \X T0 \X { u \in T1 : u.op # "not" } }
+T2b == { Bin(z[1], z[2], z[3]) : z \in Conn \X { u \in T1 : u.op # "not" } \X T0 }      \* (a o b) o c
 Trees == T0 \cup T1 \cup T2a \cup (IF Depth2 THEN T2b ELSE {})
 Wrappers == {"plain", "subq", "join"}
 
@@ -174,8 +173,10 @@ Blame(x, w, f) ==
 Lost(tree, w, x, L) == Needed(tree, w, L) \ Pruned(x, L)
 
 -----------------------------------------------------------------------------
+\* three-atom trees are explored for the single-table wrapper only (state budget)
 Init == \E t \in Trees : \E w \in Wrappers :
-           st = [phase |-> "query", tree |-> t, w |-> w, x |-> [found |-> FALSE, s |-> 0, e |-> 0, ssrc |-> NoSrc, esrc |-> NoSrc],
+           /\ (t \in T2b /\ t \notin T1) => w = "plain"
+           /\ st = [phase |-> "query", tree |-> t, w |-> w, x |-> [found |-> FALSE, s |-> 0, e |-> 0, ssrc |-> NoSrc, esrc |-> NoSrc],
                  bad |-> {}, labels |-> {}]
 ExtractRange == /\ st.phase = "query"
                 /\ st' = [st EXCEPT !.phase = "range", !.x = Extract(st.tree)]
